@@ -455,7 +455,11 @@ impl<'a> Checker<'a>
             fail!(self, "C08", "polled-spurious", &["C01"], "instance {inst} ran a removal/despawn reaction nothing accounts for: {s:?} (expected {want})");
         }
         if !t.revoked_keys.is_empty() { fail!(self, "C06", "reaction-after-revoke", &["C01"], "instance {inst} ran with {s:?}; it is not registered for that (expected {want})"); }
-        if s.is_empty() { fail!(self, "C02", "duplicate-run", &["C01", "C03"], "instance {inst} ran with no event although nothing scheduled it (expected {want})"); }
+        if s.is_empty() { fail!(self, "C02", "duplicate-run", &["C01", "C03", "C14"], "instance {inst} ran with no event although nothing scheduled it (expected {want})"); }
+        if s.mu.iter().flatten().next().is_some() || s.ins.iter().flatten().next().is_some()
+        {
+            fail!(self, "C14", "unexpected-component-reaction", &["C01", "C02"], "instance {inst} ran with {s:?}; no insertion / mutation trigger accounts for it (expected {want})");
+        }
         fail!(self, "C01", "unexpected-reaction", &["C02"], "instance {inst} ran with {s:?}; nothing accounts for it (expected {want})");
     }
 
@@ -976,11 +980,17 @@ impl<'a> Checker<'a>
         if e2 != e || !(k2 == RK_RUN || k2 == RK_POSTPONE || k2 == RK_ABORT) { return self.unexpected("outcome of the system command (run / postpone / abort)"); }
         self.advance()?;
         // candidates among the explicit deliveries
-        let pick_list = |me: &Self, list: &Vec<Delivery>, inst: Option<Inst>| -> Option<usize> {
+        // (systems whose entity the harness never learnt -- created by `on`, world reactors -- are matched by state)
+        let pick_list = |me: &Self, list: &Vec<Delivery>, inst: Option<Inst>, want_busy: bool| -> (Option<usize>, bool) {
             match inst
             {
-                Some(i) => list.iter().position(|d| d.target == i),
-                None => { let c: Vec<usize> = list.iter().enumerate().filter(|(_, d)| me.insts[d.target as usize].real.is_none()).map(|(i, _)| i).collect(); if c.len() == 1 { Some(c[0]) } else { None } }
+                Some(i) => (list.iter().position(|d| d.target == i), true),
+                None =>
+                {
+                    let c: Vec<usize> = list.iter().enumerate().filter(|(_, d)| me.insts[d.target as usize].real.is_none()).map(|(i, _)| i).collect();
+                    let fits = |i: &usize| { let t = &me.insts[list[*i].target as usize]; if want_busy { t.busy } else { !t.alive || t.doomed || t.limbo } };
+                    (c.iter().copied().find(|i| fits(i)).or(c.first().copied()), c.len() == 1)
+                }
             }
         };
         match k2
@@ -1053,14 +1063,15 @@ impl<'a> Checker<'a>
                 let inst = match known { Some(i) => Some(i), None => None };
                 let mut d = None;
                 let mut list = list;
-                if let Some(l) = list.as_deref_mut() { if let Some(pos) = pick_list(self, l, inst) { d = Some(l.remove(pos)); } }
+                let mut bind = true;
+                if let Some(l) = list.as_deref_mut() { let (pos, sure) = pick_list(self, l, inst, true); bind = sure; if let Some(pos) = pos { d = Some(l.remove(pos)); } }
                 let d = match (d, inst)
                 {
                     (Some(d), _) => d,
                     (None, Some(i)) => { let saved = self.sender; self.sender = (0xFE, 0); let d = self.mk(i, Cause::PolledUnknown, false, None); self.sender = saved; d }
                     (None, None) => return bail("a system with an entity unknown to the harness was postponed; cannot attribute it"),
                 };
-                if self.insts[d.target as usize].real.is_none() { self.insts[d.target as usize].real = Some(e); }
+                if bind && self.insts[d.target as usize].real.is_none() { self.insts[d.target as usize].real = Some(e); }
                 let t = &self.insts[d.target as usize];
                 if !t.busy
                 {
@@ -1074,7 +1085,8 @@ impl<'a> Checker<'a>
                 let inst = known;
                 let mut d = None;
                 let mut list = list;
-                if let Some(l) = list.as_deref_mut() { if let Some(pos) = pick_list(self, l, inst) { d = Some(l.remove(pos)); } }
+                let mut bind = true;
+                if let Some(l) = list.as_deref_mut() { let (pos, sure) = pick_list(self, l, inst, false); bind = sure; if let Some(pos) = pos { d = Some(l.remove(pos)); } }
                 if d.is_none()
                 {
                     if let (Some((r, _)), Some(i)) = (replay_for, inst)
@@ -1082,7 +1094,7 @@ impl<'a> Checker<'a>
                         if r == i { if let Some(pos) = self.postponed.iter().position(|p| p.target == i) { d = Some(self.postponed.remove(pos)); self.stats.skipped_dead_postponed += 1; } }
                     }
                 }
-                if let Some(d) = &d { if self.insts[d.target as usize].real.is_none() { self.insts[d.target as usize].real = Some(e); } }
+                if let Some(d) = &d { if bind && self.insts[d.target as usize].real.is_none() { self.insts[d.target as usize].real = Some(e); } }
                 let target = d.as_ref().map(|d| d.target).or(inst);
                 if let Some(i) = target
                 {
